@@ -483,3 +483,5 @@ func newKI(key []byte) *KeyInfo {
 }
 
 func thorough() bool { return verifkit.Thorough() }
+
+var osReadFile = os.ReadFile
